@@ -157,10 +157,16 @@ Definition rebuild_agrees (stat : bool) (b : str) : bool :=
   | Some t => optb_eqb (option_map to_wire (rebuild (fun _ => stat) t)) (Some b)
   | None => false
   end.
+(* the property's domain: no string value holds a white-space or quote character (ToCommandLine does not quote) *)
+Definition plain_char (c : ascii) : bool :=
+  let n := N_of_ascii c in negb ((n =? 32) || ((9 <=? n) && (n <=? 13)) || (n =? 34) || (n =? 39))%N.
+Definition plain_item (i : item) : bool := match i with IFilter _ _ (VStr v) => forallb plain_char v | _ => true end.
+Definition plain_strings (s : rspec) : bool := forallb plain_item (sp_items s) && forallb (forallb plain_char) (sp_keys s).
 Definition judge_c07 (c : bcase) : N :=
   match c with
   | BRule s (Some b) r =>
-      if watch_shaped_dir s then (if text_agrees b r then 0 else 1)
+      if negb (plain_strings s) then 0
+      else if watch_shaped_dir s then (if text_agrees b r then 0 else 1)
       else if negb (chk_C07 r) then (if covers_all_but_last b then 103 else 2) else if optb_eqb (reencode b) (Some b) && text_agrees b r && rebuild_agrees false b then 0 else 1
   | BWatch _ is_dir _ _ (Some b) r => if negb (chk_C07 r) then 2 else if optb_eqb (reencode b) (Some b) && text_agrees b r && rebuild_agrees is_dir b then 0 else 1
   | _ => 0
